@@ -90,6 +90,11 @@ def fixed? : String → Option Bool
   | "0" => some false
   | _ => none
 
+/-- cut a segment the way successive reads into a buffer of `lim` bytes see it -/
+def cutAt (lim : Nat) (b : Bytes) : List Bytes :=
+  if lim = 0 then [b] else
+  (List.range ((b.length + lim - 1) / lim)).map (fun i => (b.drop (i * lim)).take lim)
+
 /-- split `b` at the given sizes (rest in one last chunk if non-empty) -/
 def chunksOf (b : Bytes) : List Nat → List Bytes
   | [] => if b.isEmpty then [] else [b]
@@ -184,11 +189,29 @@ def step (st : St) : List String → St × String
       | some x, some ss =>
         let P := primsWith priv (w.take dhSize) ss
         let hs := ((DhHs.new kB priv x).generate P [] h).1
-        let whole := dhLoop P fx hs [] [w]
+        let cut (b : Bytes) : List Bytes := cutAt maxHandshakeLength b
+        let norm (o : HsOutcome) : HsOutcome := match o with
+          | .done seed rest unread => .done seed (rest ++ unread.flatten) []
+          | o => o
+        let whole := norm (dhLoop P fx hs [] (cut w))
+        -- the loop on [prefix, rest]: first parse on the prefix, then (if "not yet" and the rest
+        -- is one read) one parse of all of `w` from the state the first parse left.  That state is
+        -- either the initial one or the one with the cached key, so the second parse is one of two
+        -- function applications that do not depend on the split point; they are evaluated once.
+        -- Any other situation is evaluated in full.
+        let hsC : DhHs := (hs.parse P fx (w.take minHandshakeLength)).1
+        let contFresh := norm (dhLoop P fx hs [] [w])
+        let contCached := norm (dhLoop P fx hsC [] [w])
+        let full (s : Nat) : HsOutcome := norm (dhLoop P fx hs [] (cut (w.take s) ++ cut (w.drop s)))
+        let out (s : Nat) : HsOutcome :=
+          if s ≤ maxHandshakeLength ∧ w.length - s ≤ maxHandshakeLength then
+            match hs.parse P fx (w.take s) with
+            | (hs1, .notYet) => if hs1 == hs then contFresh else if hs1 == hsC then contCached else full s
+            | _ => full s
+          else full s
         let code (s : Nat) : Char :=
-          match dhLoop P fx hs [] [w.take s, w.drop s] with
-          | .done seed rest unread =>
-            if whole == .done seed (rest ++ unread.flatten) [] then 'k' else 'x'
+          match out s with
+          | .done seed rest _ => if whole == .done seed rest [] then 'k' else 'x'
           | .invalid => 'i'
           | .dhErr => 'd'
           | .panic => 'p'
